@@ -1,6 +1,7 @@
 import Shisui.FindNodes
 import Shisui.FindContent
 import Shisui.PacketSize
+import Shisui.FindNodesRel
 /-! # C11 — FINDNODES replies and their acceptance obey distance, size and relay rules
 
 Model: `Fnn.collect` (`collectTableNodes` over `appendBucketNodes`), `Fc.truncate` (`truncateNodes`),
@@ -15,6 +16,16 @@ namespace Props.C11
 theorem nodes_rule (bucket : Nat → List Fnn.TNode) (self : Fnn.TNode) (ds : List Nat) :
     (∀ n ∈ Fnn.collect bucket self 32 ds [] [], n.relayOk = true ∧ (n = self ∨ n.live = true)) ∧
     (Fnn.collect bucket self 32 ds [] []).length ≤ 32 := Fnn.nodes_rule bucket self ds
+
+/-- the same clause for the relation the driver evaluates on REAL replies (buckets are shuffled, so the reply is a relation
+    of the table): whatever reply satisfies it consists of the local record (distance 0 requested) or verified entries of
+    the bucket covering a requested distance ≤ 256, all relay-safe for the asker -/
+theorem allowed_reply_rule (tab : List Fnr.TN) (selfN : Fnr.TN) (asker : String) (dists : List Nat) (res : List Nat)
+    (rest : List (List Fnr.TN))
+    (h : Fnr.consume ((Fnr.cleanDists dists []).map (Fnr.cands tab selfN asker)) res = (true, rest)) :
+    ∀ i ∈ res, ∃ d ∈ dists, d ≤ 256 ∧ ∃ n, n.id = i ∧ Fnr.relayOk asker n.cls = true ∧
+      ((d = 0 ∧ n = selfN) ∨ (d ≠ 0 ∧ n ∈ tab ∧ n.live = true ∧ n.bucket = Fnr.bucketOf d)) :=
+  Fnr.allowed_reply_rule tab selfN asker dists res rest h
 
 /-- "A FINDNODES reply fits in one discv5 packet": whatever list of records is handed to `truncateNodes` with the budget
     `maxPacketSize − talkRespOverhead − 6`, the NODES message (1 id byte + 1 total + 4 offset + Σ(4 + record)) yields a
@@ -50,6 +61,7 @@ example : (Fnn.filterNodes (some [255]) [] [{ id := 1, signed := true, relayOk :
     { id := 2, signed := true, relayOk := true, inNetrestrict := true, udp := 1024, dist := 255 }]).length = 1 := by decide
 
 #print axioms nodes_rule
+#print axioms allowed_reply_rule
 #print axioms nodes_fits
 #print axioms overhead_exact
 #print axioms accept_only_if
